@@ -86,11 +86,15 @@ pub async fn run(seed: u64, sched: Rc<Sched>, keep_log: bool) -> (CaseResult, Ve
     // 1 OPEN consumed by the waiting reusable stream + frame_count held + 1 header read ahead.
     let bound = frame_count + 3;
     if pulled_frames > bound {
-        hist.violation(
-            "C14",
-            "read_frame_count_limit_exceeded",
-            format!("the multiplexer pulled {pulled_frames} control frames nobody consumes, read_frame_count is {frame_count}"),
-        );
+        // A bound of the multiplexer (C14) and, seen from a hostile peer, unbounded buffering of
+        // network input (C10).
+        for p in ["C14", "C10"] {
+            hist.violation(
+                p,
+                "read_frame_count_limit_exceeded",
+                format!("the multiplexer pulled {pulled_frames} control frames nobody consumes, read_frame_count is {frame_count}"),
+            );
+        }
     }
     if pulled_frames >= frame_count {
         hist.probe("frame_count_limit_reached");
